@@ -177,7 +177,14 @@ def _decode_audit():
                               and ast.unparse(v.test) == "self.no_data_loss"
                               and isinstance(v.orelse, ast.Constant) and v.orelse.value != "strict")
             rows.append(("decode_errors_strict_iff_no_data_loss", ok and len(calls) == 1, "decode calls: %s" % [ast.unparse(c) for c in calls]))
-    rows.append(("found", len(rows) == 1, "_from_byte_like found"))
+            # no other way of turning bytes into text in this function: str(b, encoding, errors), codecs.*, bytes.decode aliases
+            other = [ast.unparse(c) for c in ast.walk(n) if isinstance(c, ast.Call) and (
+                (isinstance(c.func, ast.Name) and c.func.id == "str" and (len(c.args) > 1 or c.keywords)) or
+                (isinstance(c.func, ast.Attribute) and isinstance(c.func.value, ast.Name) and c.func.value.id == "codecs"))]
+            lenient = [ast.unparse(c) for c in ast.walk(n) if isinstance(c, ast.Constant) and c.value in ("ignore", "replace", "backslashreplace", "surrogateescape")
+                       and not any(c is kw.value.orelse for call in calls for kw in call.keywords if isinstance(kw.value, ast.IfExp))]
+            rows.append(("no_other_decoding_path", not other and not lenient, "other decodings: %s; lenient error handlers outside the guarded one: %s" % (other, lenient)))
+    rows.append(("found", len(rows) == 2, "_from_byte_like found"))
     return rows
 
 
